@@ -16,6 +16,7 @@ import (
 	"github.com/gregoryv/mq"
 
 	"verif/mc/bind"
+	"verif/mc/env"
 	"verif/mc/gen"
 	"verif/mc/spec"
 )
@@ -79,6 +80,10 @@ var clockNow = clockBase
 
 func resetClock() {
 	clockNow = clockBase
+	if mq.VerifInstrumented {
+		// deadlines set on the connection double are judged by the same clock
+		env.Now = func() time.Time { return clockNow }
+	}
 	if mq.VerifNowHook == nil {
 		mq.VerifNowHook = func() time.Time {
 			clockNow = clockNow.Add(time.Millisecond)
@@ -252,6 +257,9 @@ var Mined struct {
 	// megabytes or thousands of executions)
 	NovelLens   []int
 	NovelCounts []int
+	// NovelBudgets: integer constants above 4 MiB (up to 64 GiB) that the
+	// tree under test has and the pinned tree has not: process-wide limits
+	NovelBudgets []int64
 }
 
 var pinnedConstStrings = []string{"-", "----", "*********", "AUTH", "CONNACK", "CONNECT", "DISCONNECT", "Filters", "MQTT", "PINGREQ", "PINGRESP", "PUBACK", "PUBCOMP", "PUBLISH", "PUBREC", "PUBREL", "QoS", "SUBACK", "SUBSCRIBE", "UNDEFINED", "UNSUBACK", "UNSUBSCRIBE", "UserProperties", "Will", "empty", "filter", "filters", "invalid", "key", "malformed", "no", "unmarshal", "value"}
@@ -287,6 +295,11 @@ func LoadMined() {
 	for _, v := range f.ConstInts {
 		if base[v] {
 			ordered = append(ordered, v)
+		}
+	}
+	for _, v := range ordered {
+		if v > 4<<20 && v <= 1<<36 && !base[v] && len(Mined.NovelBudgets) < 6 {
+			Mined.NovelBudgets = append(Mined.NovelBudgets, v)
 		}
 	}
 	for _, v := range ordered {
@@ -343,6 +356,42 @@ func LoadMined() {
 	if len(Mined.Strings) > 150 {
 		Mined.Strings = Mined.Strings[:150]
 	}
+	// compositions of the tokens that are new in the tree under test (a
+	// parser added to the library has its keywords in the source; what it
+	// parses is made of them): pairs joined the ways parameters are written,
+	// and each token after characters that change length under case folding
+	// or are not UTF-8
+	var novel []string
+	for _, s := range f.ConstStrings {
+		if !pinnedS[s] && len(s) >= 1 && len(s) <= 16 && utf8.ValidString(s) && !strings.ContainsAny(s, "\n\t%") && len(novel) < 8 {
+			novel = append(novel, s)
+		}
+	}
+	var comp []string
+	addc := func(v string) {
+		if !seenS[v] && len(comp) < 400 {
+			seenS[v] = true
+			comp = append(comp, v)
+		}
+	}
+	for _, t := range novel {
+		for _, pre := range []string{"\xff\xfe", "\u023a\u023e", "a/b; ", "x "} {
+			addc(pre + t)
+			addc(pre + t + "b")
+		}
+		addc(t + "x")
+	}
+	for _, t1 := range novel {
+		for _, t2 := range novel {
+			for _, pre := range []string{"", "a/b; ", "a/b;"} {
+				addc(pre + t1 + t2)
+				addc(pre + t1 + "=" + t2)
+			}
+			addc(t1 + " " + t2)
+			addc(t1 + ": " + t2)
+		}
+	}
+	Mined.Strings = append(Mined.Strings, comp...)
 	if len(Mined.Lens) > 90 {
 		Mined.Lens = Mined.Lens[:90]
 	}
